@@ -61,6 +61,7 @@ type typeCase struct {
 	Uniform  bool     `json:"uniform"`
 	Lossless bool     `json:"lossless"`
 	Embeds   bool     `json:"embeds"`
+	Random   bool     `json:"-"` // from FuseMergeRandom.tla (generated beyond the exhaustive alphabet)
 }
 
 func (tc *typeCase) key() string {
@@ -461,7 +462,14 @@ func run(c *core.Ctx) error {
 	if err != nil || cases == nil {
 		return err
 	}
-	c.Set("type_cases", len(cases))
+	nrand := 0
+	for i := range cases {
+		if cases[i].Random {
+			nrand++
+		}
+	}
+	c.Set("type_cases", len(cases)-nrand)
+	c.Set("random_type_cases", nrand)
 	c.Set("fuser_cases", len(spillCases))
 	c.Set("exhaustive", true)
 	tainted := map[string]int{}
@@ -471,7 +479,7 @@ func run(c *core.Ctx) error {
 		}
 	}
 	c.Set("spec_tainted_cases", tainted)
-	c.Logf("TLC exported %d type cases (%v on a defect path) and %d Fuser cases", len(cases), tainted, len(spillCases))
+	c.Logf("TLC exported %d enumerated + %d generated type cases (%v on a defect path) and %d Fuser cases", len(cases)-nrand, nrand, tainted, len(spillCases))
 
 	startProfile()
 	// Replay the type cases on several goroutines; flush the reports in case order.
@@ -554,17 +562,38 @@ func (e *env) runTLC() ([]typeCase, []fuserCase, error) {
 		err   error
 		ok    bool
 	}
-	// shards 0..nshards-1 evaluate the type cases; one more process (Shard = -1) model-checks the
+	// shards 0..nshards-1 evaluate the type cases; one more process (Shard = NShards) model-checks the
 	// Fuser state machine and the side lemmas
-	results := make([]result, nshards+1)
+	results := make([]result, nshards+2)
 	done := make(chan int)
+	// "randomly beyond": seeded deeper/wider type sequences, evaluated by TLC on the same transcription
+	nrandom := 400
+	if !c.Quick() {
+		nrandom = 8000
+	}
+	go func() {
+		i := nshards + 1
+		defer func() { done <- i }()
+		cfg := fmt.Sprintf("SPECIFICATION Spec\nCONSTANTS\n  Level = 1\n  TripleLevel = 1\n  Shard = %d\n  NShards = %d\n  OutFile = \"\"\n  SpillFile = \"\"\n  MaxLen = 0\n  Mems = {1}\n  Sizes = {3}\n", nshards, nshards)
+		res := c.MustHold(core.TLCRun{Module: "FuseMergeRandom", Cfg: cfg, Files: map[string][]byte{"FuseCasesGen.tla": genModule(randomCases(c.Seed+2020, nrandom))},
+			Keep: []string{"random.ndjson"}, Workers: 1, Timeout: timeout, HeapMB: 3072})
+		if res == nil {
+			return
+		}
+		r := &results[i]
+		r.cases, r.err = core.ReadNDJSON[typeCase](res, "random.ndjson")
+		for j := range r.cases {
+			r.cases[j].Random = true
+		}
+		r.ok = r.err == nil
+	}()
 	for i := 0; i <= nshards; i++ {
 		go func(i int) {
 			defer func() { done <- i }()
 			shard, nworkers := i, 1
 			cfg := string(cfgBytes)
 			if i == nshards {
-				shard, nworkers = -1, 4
+				shard, nworkers = nshards, 4
 			} else {
 				cfg = reMaxLen.ReplaceAllString(cfg, "\n  MaxLen = 0")
 				cfg = strings.Replace(cfg, "\nINVARIANTS BufferInv SchemaInv DoneInv", "\n", 1)
@@ -576,7 +605,7 @@ func (e *env) runTLC() ([]typeCase, []fuserCase, error) {
 				return
 			}
 			r := &results[i]
-			if shard >= 0 {
+			if shard < nshards {
 				r.cases, r.err = core.ReadNDJSON[typeCase](res, "cases.ndjson")
 			} else {
 				r.spill, r.err = core.ReadNDJSON[fuserCase](res, "spill.ndjson")
@@ -584,7 +613,7 @@ func (e *env) runTLC() ([]typeCase, []fuserCase, error) {
 			r.ok = r.err == nil
 		}(i)
 	}
-	for i := 0; i <= nshards; i++ {
+	for i := 0; i <= nshards+1; i++ {
 		<-done
 	}
 	var cases []typeCase
@@ -599,7 +628,12 @@ func (e *env) runTLC() ([]typeCase, []fuserCase, error) {
 		cases = append(cases, results[s].cases...)
 		spill = append(spill, results[s].spill...)
 	}
-	sort.SliceStable(cases, func(i, j int) bool { return cases[i].key() < cases[j].key() })
+	sort.SliceStable(cases, func(i, j int) bool {
+		if cases[i].Random != cases[j].Random {
+			return cases[j].Random
+		}
+		return cases[i].key() < cases[j].key()
+	})
 	return cases, spill, nil
 }
 
